@@ -923,6 +923,36 @@ pub fn family(name: &str, k: usize) -> Vec<Vec<u8>> {
             }
             if known { vec![pre, d] } else { vec![d] }
         }
+        "v9-options-data-template-scope" => {
+            // a wide data template (id 256), an options template (id 257) whose only scope field
+            // is a Template scope (type 5, 2 bytes), then k six-byte options data flowsets whose
+            // scope value names the wide template: a value that cross-references another cache entry
+            let nf = 1000usize;
+            let mut t = v9hdr(1);
+            p16(&mut t, 0);
+            p16(&mut t, (8 + 4 * nf) as u16);
+            p16(&mut t, 256);
+            p16(&mut t, nf as u16);
+            for i in 0..nf {
+                p16(&mut t, 1 + (i % 2) as u16);
+                p16(&mut t, 1);
+            }
+            let mut o = v9hdr(1);
+            p16(&mut o, 1);
+            p16(&mut o, 14);
+            p16(&mut o, 257);
+            p16(&mut o, 4);
+            p16(&mut o, 0);
+            p16(&mut o, 5);
+            p16(&mut o, 2);
+            let mut d = v9hdr(k as u16);
+            for _ in 0..k {
+                p16(&mut d, 257);
+                p16(&mut d, 6);
+                p16(&mut d, 256);
+            }
+            vec![t, o, d]
+        }
         "ipfix-data-before-templates" => {
             // the IPFIX form: k data sets of unknown ids, then one template set defining them
             let mut body = vec![];
@@ -1009,6 +1039,7 @@ pub const FAMILIES: &[(&str, usize)] = &[
     ("v9-data-before-templates", 2048),
     ("v9-known-then-data-before-templates", 2048),
     ("ipfix-data-before-templates", 2048),
+    ("v9-options-data-template-scope", 4096),
 ];
 
 /// Fill all four caches of a parser with `p` unrelated templates of 64 fields each (ids from 20000
